@@ -418,7 +418,7 @@ func c07Table(c *Ctx, v *vocab) {
 			for _, e := range t.Ev {
 				if e.Kind == EvAssign && e.LObj == f {
 					found = true
-					ro := (&Interp{P: c.P, Info: info}).objOf(e.RHS)
+					ro := evRHSObj(&Interp{P: c.P, Info: info}, e)
 					if ro != pid {
 						ok = false
 					}
@@ -517,7 +517,7 @@ func c07RelTerm(c *Ctx, v *vocab) {
 		for _, e := range t.Ev {
 			if e.Kind == EvAssign && e.LObj == f {
 				found = true
-				ro := (&Interp{P: c.P, Info: info}).objOf(e.RHS)
+				ro := evRHSObj(&Interp{P: c.P, Info: info}, e)
 				if sig.Params().Len() == 0 || (ro != sig.Params().At(0) && ro != c.P.Field("packet", "Publish", "ID")) {
 					okID = false
 				}
